@@ -688,6 +688,12 @@ def _hyp_ctor(it, cls, args, kw):
     model = kw.get("model", args[1] if len(args) > 1 and isinstance(
         args[1], str) else "Model.PROJECTIVE")
     sh = a0.shape
+    if isinstance(model, str) and not model.startswith("Model."):
+        # the string aliases accepted by the Model enum
+        model = {"klein": "Model.KLEIN", "affin": "Model.KLEIN",
+                 "poinc": "Model.POINCARE", "halfs": "Model.HALFSPACE",
+                 "halfp": "Model.HALFSPACE", "hyper": "Model.HYPERBOLOID",
+                 "proje": "Model.PROJECTIVE"}.get(model.lower()[:5], model)
     if model in AFFINE_MODELS:
         sh = sh[:-1] + (dim_add(sh[-1], 1),)
     if len(sh) < und:
@@ -840,6 +846,13 @@ def _sh5_table():
               lambda O: ("obj", O + (3, 3))))
     t.append(("Point.unit_tangent_towards", pt, "unit_tangent_towards",
               ["@same"], {}, lambda O: ("obj", O + (2, "n"))))
+    # factories that take the composite shape as an ARGUMENT ("@shape" is
+    # the outer shape of the row, as a tuple)
+    t.append(("Point.get_origin(shape)", dict(cls="Point", static=True),
+              "get_origin", [2, "@shape"], {}, lambda O: ("obj", O + (3,))))
+    t.append(("TangentVector.get_base_tangent(shape)",
+              dict(cls="TangentVector", static=True), "get_base_tangent",
+              [2, "@shape"], {}, lambda O: ("obj", O + (2, 3))))
     return t
 
 
@@ -900,6 +913,8 @@ def _run_object_table(ctx, rid, it, table, home_rel, only=None):
             def arg(x):
                 if x == "@same":
                     return mk()
+                if x == "@shape":
+                    return tuple(O)
                 if x == "@outer":
                     return AArr(O)
                 if isinstance(x, dict) and "arr" in x:
